@@ -140,3 +140,70 @@ def match_table(f, scope, want_params=None):
             else:
                 other.append((p, arm["body"]))
     return table, other, scr, payload_ok
+
+
+def open_alt(g, a, facts=None):
+    """An alternative given by name (`alt((with_unit, ..))`) stands for the body of that function. -> (node, module)"""
+    a = unwrap(a)
+    module = None
+    hops = 0
+    while a["t"] == "ref" and hops < 4 and not a.get("extra"):
+        fb = g.deref(a)
+        b = single_body(fb)
+        if b is None:
+            break
+        if facts is not None and a["fn"] in facts.fns:
+            module = tuple(facts.fns[a["fn"]].module)
+        a = b
+        hops += 1
+    return a, module
+
+
+def value_table(g, facts, a, scope, module):
+    """`a` = map(P, F) where P reads a number and/or one character of a finite set: the value built for every character,
+    decided by evaluating F (and the character's own value function, if it has one) — whatever way F is written.
+    -> dict(table={char: ctor}, payload_ok, chars, one, problems) or None when `a` does not have that shape."""
+    from . import probe as P
+
+    if a["t"] != "map":
+        return None
+    inner = unwrap(a["p"])
+    items = [unwrap(i["p"]) for i in inner["items"] if i["keep"]] if inner["t"] == "seq" else [inner]
+    tupled = inner["t"] == "seq" and len(items) > 1
+    chars = [i for i in items if i["t"] == "set" and i["cs"][0] == "in" and i.get("max") == 1 and i.get("min") == 1]
+    if len(chars) != 1 or len(items) > 2:
+        return None
+    cn = chars[0]
+    NUM = P.Opq("the number read")
+    pr = P.Probe(facts, None, module or ())
+    table, probs, payload_ok = {}, [], True
+    try:
+        fv = pr.ev(a["f"], {})
+        vm = None
+        if cn.get("vmap") is not None:
+            vm = P.Probe(facts, None, cn.get("vmod") or module or ())
+            vfn = vm.ev(cn["vmap"], {})
+        for ch in sorted(cn["cs"][1]):
+            v = ch
+            if vm is not None:
+                r = vm.apply(vfn, [ch])
+                if not (isinstance(r, tuple) and r and r[0] == "some"):
+                    probs.append("%r: no value" % ch)
+                    continue
+                v = r[1]
+            vals = [v if i is cn else NUM for i in items]
+            try:
+                out = pr.apply(fv, [vals if tupled else vals[0]])
+            except P.NoEval as ex:
+                probs.append("%r: %s" % (ch, ex))
+                continue
+            if isinstance(out, tuple) and out and out[0] == "enum":
+                table[ch] = rx.canon_path(out[1], scope)
+                want = [NUM] if len(items) == 2 else []
+                if len(out[2]) != len(want) or any(x is not y for x, y in zip(out[2], want)):
+                    payload_ok = False
+            else:
+                probs.append("%r: value %r" % (ch, out))
+    except P.NoEval as ex:
+        probs.append(str(ex))
+    return dict(table=table, payload_ok=payload_ok, chars="".join(sorted(cn["cs"][1])), one=bool(cn.get("one")), problems=probs, numbered=len(items) == 2)
